@@ -807,7 +807,12 @@ def wf_const(c):
     if c.get("real"):
         return ["real", 0, [], c["v"]]
     if c["t"] == "int":
-        return ["int", c["v"], [], "signed" if c.get("signed") else ""]
+        v = c["v"]
+        if not -(1 << 31) < v < (1 << 31):      # beyond TLC's integers: binary digits (see c07.wide_int)
+            w = ((-v - 1).bit_length() + 1) if v < 0 else v.bit_length()
+            u = v & ((1 << w) - 1)
+            return ["wint", 0, ["1" if (u >> i) & 1 else "0" for i in range(w)], "neg" if v < 0 else ""]
+        return ["int", v, [], "signed" if c.get("signed") else ""]
     if c["t"] == "str":
         return ["str", 0, [], c["v"]]
     return ["bits", c["w"], list(c["bits"][::-1]), "signed" if (c.get("signed") or c.get("s")) else ""]
